@@ -1,6 +1,5 @@
 package syntax
 
-
 // concrete skeleton programs; the byte 0x01 marks a hole filled by a
 // symbolic byte. They cover constructs that need more than four bytes.
 var verifCorpus = [...]string{
